@@ -30,6 +30,7 @@ func C18(r *core.Run) {
 	reflectionGuards(r)
 	recursionGuards(r)
 	accumulatorThreading(r, "lib/j5schema", "lib/j5reflect")
+	nestedSkipsMapEntries(r, "lib/j5schema", "lib/j5reflect", "internal/structure")
 	// every proto kind the reflector accepts is dispatched somewhere; the rest reach the error default
 	rules.TypeSwitchCovers(r, "lib/j5reflect", "newMessageFieldFactory", core.Module+"/lib/j5schema", "FieldSchema", map[string]string{
 		"ArrayField":   "not a valid item schema: reaches the default arm, which returns an error",
